@@ -98,6 +98,22 @@ func body(c Case, w *world) func() {
 			default:
 				w.bad("C13|T1|other-error", fmt.Sprintf("NextPackage returned %v, want a queued package or an error wrapping the context's error", err))
 			}
+		case "T1-until-err-then-cancel", "T1-until-nil-then-cancel":
+			// the callback fails (or is nil) on the first package of a response whose rest never arrives;
+			// the library drains; the caller's context is then cancelled: the call must return
+			ctx, cancel := context.WithCancel(context.Background())
+			defer cancel()
+			vrt.GoNamed("canceller", func() { cancel() })
+			vrt.GoNamed("peer", func() { pipe.PeerSend(pkt(false, append(rs(1), rs(2)...))) })
+			var cb func(tds.Package) (bool, error)
+			if c.Scenario == "T1-until-err-then-cancel" {
+				cb = func(p tds.Package) (bool, error) { return false, errors.New("callback failed") }
+			}
+			_, err := ch.NextPackageUntil(ctx, true, cb)
+			if err == nil {
+				w.bad("C13|T1|until-returned-nil", "NextPackageUntil returned no error although the response never ended and its context was cancelled")
+			}
+			w.facts["result"] = "returned"
 		case "T2-send-cancelled":
 			ctx, cancel := context.WithCancel(context.Background())
 			cancel()
@@ -346,6 +362,7 @@ func main() {
 	for n := 0; n <= 2; n++ {
 		cases = append(cases, Case{Scenario: "T1-cancel-own-ctx", N: n}, Case{Scenario: "T1-cancel-conn-ctx", N: n})
 	}
+	cases = append(cases, Case{Scenario: "T1-until-err-then-cancel"}, Case{Scenario: "T1-until-nil-then-cancel"})
 	cases = append(cases, Case{Scenario: "T2-send-cancelled", N: 10}, Case{Scenario: "T2-send-cancelled", N: 1200})
 	for _, s := range []string{"T3-close-vs-next", "T3-close-vs-until", "T3-close-vs-send"} {
 		cases = append(cases, Case{Scenario: s, N: 1})
